@@ -26,9 +26,9 @@ class C05(Prop):
     title = "Result caching is transparent"
     campaigns = {
         "quick": [("main", 24000, 60), ("known:disjunction+for_all", 320, 30),
-                  ("known:disjunction+flatten", 320, 30), ("known:predicate_with_repeated_variable", 320, 30), ("known:disjunction_over_different_variables", 320, 30), ("known:disjunction_of_multi_variable_conjunction", 320, 30)],
+                  ("known:disjunction+flatten", 320, 30), ("known:predicate_with_repeated_variable", 320, 30), ("known:disjunction_over_different_variables", 320, 30), ("known:disjunction_of_multi_variable_conjunction", 320, 30), ("rules", 3000, 40), ("known:rule_tree_with_alternative_or_next", 320, 40)],
         "thorough": [("main", 250000, 1500), ("known:disjunction+for_all", 4000, 300),
-                     ("known:disjunction+flatten", 4000, 300), ("known:predicate_with_repeated_variable", 4000, 300), ("known:disjunction_over_different_variables", 20000, 300), ("known:disjunction_of_multi_variable_conjunction", 20000, 300)],
+                     ("known:disjunction+flatten", 4000, 300), ("known:predicate_with_repeated_variable", 4000, 300), ("known:disjunction_over_different_variables", 20000, 300), ("known:disjunction_of_multi_variable_conjunction", 20000, 300), ("rules", 60000, 600), ("known:rule_tree_with_alternative_or_next", 6000, 400)],
     }
     chunk = 40
     rule = ("seeded pools of 1-3 queries (joins, disjunctions over equal and different variable sets, negation, "
@@ -58,7 +58,22 @@ class C05(Prop):
         cfg = G.gen_config(rng, tier, **force)
         cfg["kinds"] = ["list"]
         region = campaign.split(":", 1)[1] if campaign.startswith("known:") else None
-        world, pool = G.gen_world_and_pool(rng, cfg, want_region=region)
+        if campaign in ("rules", "known:rule_tree_with_alternative_or_next"):
+            cfg["vocab"] = [v for v in cfg["vocab"] if v not in ("forall", "kw", "nest", "flat")]
+            want = set() if campaign == "rules" else {"rule_tree_with_alternative_or_next"}
+            for _ in range(80):
+                world = G.gen_world(rng, cfg)
+                pool = G.gen_rule_pool(rng, cfg, world)
+                if G.pool_regions(pool) == want:
+                    break
+            else:
+                for q in pool["queries"]:
+                    if G.query_regions(q) - want:
+                        q["conds"] = []
+                        if q.get("rule"):
+                            q["rule"]["children"] = []
+        else:
+            world, pool = G.gen_world_and_pool(rng, cfg, want_region=region)
         ids = [q["id"] for q in pool["queries"]]
         ops = []
         for _ in range(rng.randint(1, 6 if tier == "quick" else 10)):
